@@ -167,7 +167,12 @@ def nat_eval(t):
     
     """
     if t.is_number():
-        return t.dest_number()
+        # A numeral of a natural number: -3 and 1 / 2 are numbers too, but
+        # written with operations that are not those of the natural numbers.
+        n = t.dest_number()
+        if not (isinstance(n, int) and n >= 0):
+            raise ConvException('nat_eval: %s' % str(t))
+        return n
     elif t.is_comb('Suc', 1):
         return nat_eval(t.arg) + 1
     elif t.is_plus():
